@@ -208,29 +208,23 @@ Theorem C08_closure_replaced :
 Proof. exact closure_replaced. Qed.
 Print Assumptions C08_closure_replaced.
 
-(* (10c) fmakunbound as an operation of the histories (OFmak; round-4 seed).  (8) and (9b) are stated for the
-   histories without it (`no_fmak`): slip's fmakunbound removes the creator of the name but neither resets the
-   registered Lambda nor reaches the compiled callers - KNOWN FINDINGS C08-fmakunbound-compiled-caller and
-   C08-fmakunbound-orphaned-callers; on the faithful model the unguarded refinement is false: *)
-Theorem C08_fmakunbound_needs_guard_refuted :
-  ~ (forall n ops, Forall2 osim (runS n sinit ops) (runM n minit ops)).
-Proof. exact fmakunbound_needs_guard_refuted. Qed.
-Print Assumptions C08_fmakunbound_needs_guard_refuted.
-(* the witnesses, and the shape that IS inside the finer guard used by the correspondence (`fguards`: the name is
-   redefined at once, by the first form of the next code object, with a body that does not mention it), where M
-   gives S's answer: the old caller sees the new definition (2).  That M = S on every history inside `fguards`
-   is evaluated per run (self-check code 3), not proved. *)
-Theorem C08_fmakunbound_witness :
-  runM 50 minit fmak_ops1 = [(Val (VSym "h"), []); (Val (VInt 1%Z), [])] /\
+(* (10c) fmakunbound as an operation of the histories (OFmak).  Since repo_fixes/C08-5 (fmakunbound turns the
+   registered Lambda into the Lambda of an undefined function) and C08-6 (CompileList reuses a registered Lambda)
+   M follows S after a fmakunbound: the witnesses of the repaired findings C08-fmakunbound-compiled-caller and
+   C08-fmakunbound-orphaned-callers - a caller compiled earlier signals undefined-function while the name is
+   unbound (was 1), a call compiled meanwhile and the earlier caller both follow the next definition ((2 2), was
+   (1 2)), and the redefinition at once is seen by the old caller (2).  The correspondence compares every outcome
+   of every history with S; the THEOREMS (8), (9b) are still stated for histories without OFmak (`no_fmak`): the
+   invariant has no clause yet for a registered Lambda without a creator (left open). *)
+Theorem C08_fmakunbound_repaired :
+  runM 50 minit fmak_ops1 = [(Val (VSym "h"), []); (Err EUndefined, [])] /\
   runS 50 sinit fmak_ops1 = [(Val (VSym "h"), []); (Err EUndefined, [])] /\
-  runM 50 minit fmak_ops2 = [(Val (VSym "h"), []); (Val (VList [VInt 1%Z; VInt 2%Z]), [])] /\
+  runM 50 minit fmak_ops2 = [(Val (VSym "h"), []); (Val (VList [VInt 2%Z; VInt 2%Z]), [])] /\
   runS 50 sinit fmak_ops2 = [(Val (VSym "h"), []); (Val (VList [VInt 2%Z; VInt 2%Z]), [])] /\
   runM 50 minit fmak_ops3 = [(Val (VSym "h"), []); (Val (VInt 2%Z), [])] /\
-  runS 50 sinit fmak_ops3 = [(Val (VSym "h"), []); (Val (VInt 2%Z), [])] /\
-  fguards 50 minit true None fmak_ops1 = [true; false] /\ fguards 50 minit true None fmak_ops2 = [true; false] /\
-  fguards 50 minit true None fmak_ops3 = [true; true].
-Proof. exact fmak_witness. Qed.
-Print Assumptions C08_fmakunbound_witness.
+  runS 50 sinit fmak_ops3 = [(Val (VSym "h"), []); (Val (VInt 2%Z), [])].
+Proof. exact fmak_repaired. Qed.
+Print Assumptions C08_fmakunbound_repaired.
 
 (* (11) The property for whole programs.  A program = a block of function definitions es (distinct names, `defs_are
    es ds`) followed by main forms (at least one; none of them a definition); `prog cid es mains cmp k` = read it
